@@ -197,8 +197,23 @@ def _never_raises(ck, repo):
         if isinstance(s, ast.Try):
             continue
         outside.append(s)
-    ok = len(outside) == 1 and isinstance(outside[0], ast.Assign) and callee_last(outside[0].value) == "_cached_parse_and_validate_query"
-    ck.ob("Engine.execute: the only statement outside the catch-all is the cached parse/validate call", ok, e, outside[0] if outside else e.node,
+    # what may run outside the catch-all: the cached parse/validate call (it has catch-alls of its own) and statements that
+    # neither await nor call into the package (a log line, a local binding)
+    parse = [s for s in outside if isinstance(s, ast.Assign) and callee_last(strip_await(s.value)) == "_cached_parse_and_validate_query"]
+    risky = []
+    for s in outside:
+        if s in parse:
+            continue
+        for n in ast.walk(s):
+            if isinstance(n, (ast.Await, ast.Raise, ast.Yield, ast.YieldFrom)):
+                risky.append(s)
+            elif isinstance(n, ast.Call):
+                tgt = repo.resolve_call(e, n) if hasattr(repo, "resolve_call") else None
+                d = dotted(n.func) or ""
+                if tgt is not None or d.startswith("self."):
+                    risky.append(s)
+    ok = len(parse) == 1 and not risky
+    ck.ob("Engine.execute: outside the catch-all only the cached parse/validate call runs package code", ok, e, (risky or outside or [e.node])[0],
           construct="engine:outside", detail=str([unparse(s)[:60] for s in outside]))
     p = repo.func("tartiflette/execution/collect.py", "parse_and_validate_query")
     pv = FuncView(p)
